@@ -97,12 +97,32 @@ class C08(Prop):
             pre.args["target"] = tree(jv2)
         elif op == "duplicate":
             pre.args["tree"] = tree(jv)
+            if c % 3 == 0:
+                # ownership flags inside the duplicated tree: reference members (string / container) and constant keys
+                holder = lib.cJSON_CreateObject()
+                pre.roots.append(holder)
+                target = tree(jv2)
+                s1 = tree(["S", STRS[b % len(STRS)]])
+                lib.cJSON_AddItemReferenceToObject(holder, b"ref to tree", target)
+                lib.cJSON_AddItemReferenceToObject(holder, b"ref to string", s1)
+                lib.cJSON_AddItemToObjectCS(holder, self.arena_key(lib, b"const key"), lib.cJSON_CreateStringReference(self.arena_key(lib, b"borrowed text")))
+                lib.cJSON_AddItemToObjectCS(holder, self.arena_key(lib, b"K2"), lib.cJSON_CreateNumber(1.5))
+                lib.cJSON_AddItemReferenceToArray(lib.cJSON_AddArrayToObject(holder, b"arr"), s1)
+                pre.roots.remove(holder)
+                pre.roots.insert(0, holder)       # references are deleted before their targets
+                pre.args["tree"] = holder
         elif op == "replace_key":
             o = as_object(jv)
             if not o[1]:
                 o = ["O", [[b"member", ["n"]]]]
             pre.args["obj"] = tree(o)
             pre.args["item"] = tree(jv2)
+            if c % 4 == 3:
+                # the replacement carries a constant key from an earlier life as a CS member
+                tmp = lib.cJSON_CreateObject()
+                lib.cJSON_AddItemToObjectCS(tmp, self.arena_key(lib, b"constant"), pre.args["item"])
+                lib.cJSON_DetachItemViaPointer(tmp, pre.args["item"])
+                lib.cJSON_Delete(tmp)
             k = o[1][b % len(o[1])][0]
             if c % 5 == 0:
                 k = b"missing key"
@@ -114,6 +134,7 @@ class C08(Prop):
             pre.args["tree"] = tree(t)
             pre.args["node"] = lib.cJSON_GetArrayItem(pre.args["tree"], 0)
         pre.texts = [lib.take_text(lib.cJSON_PrintUnformatted(r)) for r in pre.roots]
+        pre.flags = [lib.shim_type(r) for r in pre.roots]
         return pre
 
     def call(self, lib, case, pre):
@@ -305,6 +326,10 @@ class C08(Prop):
                         if leaked:
                             raise Violation("%s: the call reported failure but %d block(s) allocated during it are still live" % (where, leaked),
                                             key="leak:" + op)
+                        for r, ty in zip(pre.roots, pre.flags):
+                            if lib.shim_type(r) != ty:
+                                raise Violation("%s: the type/ownership flags of a pre-existing item changed from 0x%x to 0x%x although the call failed" % (
+                                    where, ty, lib.shim_type(r)), key="flags-modified:" + op)
                         for r, t in zip(pre.roots, pre.texts):
                             fl, _, _ = lib.walk(r, 1, 1)
                             if fl:
